@@ -238,7 +238,11 @@ HCALLS = ([("measure", (a, b)) for a, b in (("C", "E"), ("C", "G"), ("E", "C"), 
            ("is_consonant", ("C", "E")), ("is_dissonant", ("E", "C")), ("is_perfect_consonant", ("C", "G")),
            # the public helper the constructors are built on, asked directly with targets that carry accidentals
            ("augment_or_diminish_until_the_interval_is_right", ("C", "Eb", 3)), ("augment_or_diminish_until_the_interval_is_right", ("C", "E#", 4)),
-           ("augment_or_diminish_until_the_interval_is_right", ("E", "G", 4)), ("get_interval", ("C", 3, "G"))])
+           ("augment_or_diminish_until_the_interval_is_right", ("E", "G", 4)), ("get_interval", ("C", 3, "G")), ("get_interval", ("D", 2, "Db")),
+           # functions of the notes module the constructors and measure lean on, fed with octave-crossing and long spellings
+           ("notes.reduce_accidentals", ("B#",)), ("notes.reduce_accidentals", ("Cbb",)), ("notes.remove_redundant_accidentals", ("C########",)),
+           ("notes.remove_redundant_accidentals", ("Fbbbbbbbb",)), ("measure", ("C", "B#")), ("measure", ("Cbb", "C")),
+           ("major_unison", ("C####",)), ("minor_third", ("Gbbbb",))])
 _HBASE = {}
 
 
@@ -252,6 +256,9 @@ def _reload_theory():
 def _hdo(i):
     name, args = HCALLS[i]
     try:
+        if name.startswith("notes."):
+            import mingus.core.notes as _notes
+            return ["ok", engine.with_step_budget(getattr(_notes, name[6:]), args, budget=20000)]
         return ["ok", engine.with_step_budget(getattr(_intervals_module, name), args, budget=20000)]
     except engine.StepBudgetExceeded:
         return ["no result within the step horizon"]
